@@ -274,6 +274,20 @@ def operations_clients(run: Run):
                 run.table(f"{tag}:rest-operations-transport-shares-host-credentials-scopes",
                           okr and tk.get("host") == "self._host" and tk.get("credentials") == "self._credentials" and tk.get("scopes") == "self._scopes"
                           and tk.get("http_options") == "http_options", detail=str(tk), group="lro.transport:same-channel")
+                # ... and polls where the service configuration says: one entry per configured google.longrunning.Operations rule, whatever else holds
+                n_items = var.d(("len", "api.http_options.items()"), 0) or 0
+                lit = next((s_.value for s_ in ast.walk(stm[0]) if isinstance(s_, (ast.Assign, ast.AnnAssign)) and
+                            ast.unparse(s_.targets[0] if isinstance(s_, ast.Assign) else s_.target) == "http_options" and isinstance(s_.value, ast.Dict)), None)
+                keys = [k.value for k in lit.keys if isinstance(k, ast.Constant)] if lit is not None else None
+                want, asked = [], True
+                for i in range(n_items):
+                    sw = var.d(("bool", f"api.http_options.items()[{i}].k.startswith('google.longrunning.Operations')"))
+                    if sw is None:
+                        asked = False
+                    elif sw:
+                        want.append(var.hole_for(f"api.http_options.items()[{i}].k"))
+                run.table(f"{tag}:rest-operations-rules-are-exactly-the-configured-Operations-rules", keys is not None and asked and keys == want,
+                          detail=f"entries={keys} configured={want} every-selector-examined={asked}", group="lro.transport:rest-operations-rules")
     # _logged_channel is the transport's channel behind the logging interceptor (grpc) / the channel itself
     for fname in ("grpc.py.j2", "grpc_asyncio.py.j2"):
         src = J.template_source(env, TR + fname)
